@@ -63,14 +63,19 @@ theorem C04_decimal_sign (d : Codec.Dec) (k : Int) (h0 : k ≠ 0) (h : Codec.dec
 theorem C04_decimal_zero (d : Codec.Dec) : Codec.decIsKey d 0 = (d.mant == 0) :=
   Codec.decIsKey_zero d
 
-/-- the oracle is exact to the last bit inside a binade: one text never denotes two adjacent
-    positive doubles `n`, `n+1` with the same exponent — so an index value reloaded one ulp off
-    (the defect repaired by `fix: reload index values exactly`) cannot pass the comparison.
-    PARTIAL: adjacent keys across a binade boundary and negative keys are not covered by this
-    statement (they are exercised by `CodecTest` and the `reopen` profile only). -/
-theorem C04_decimal_adjacent_excl_partial (d : Codec.Dec) (n : Nat) (hn : 0 < n) (he : n / 2 ^ 52 < 2047)
-    (hm : n % 2 ^ 52 + 1 < 2 ^ 52) :
-    ¬ (Codec.decIsKey d (n : Int) = true ∧ Codec.decIsKey d ((n + 1 : Nat) : Int) = true) :=
-  Codec.decIsKey_adjacent_excl d n hn he hm
+/-- the oracle is exact to the last bit: one text never denotes two adjacent order keys `k`, `k+1`
+    — for every literal and every pair of finite keys (negative, ±0, subnormal, normal, across
+    binade boundaries) — so an index value reloaded one ulp off (the defect repaired by
+    `fix: reload index values exactly`) cannot pass the comparison.  The upper rounding boundary
+    of a double is the lower boundary of its successor and only one of the two significands is even. -/
+theorem C04_decimal_adjacent_excl (d : Codec.Dec) (k : Int)
+    (hk : k.natAbs / 2 ^ 52 < 2047) (hk1 : (k + 1).natAbs / 2 ^ 52 < 2047) :
+    ¬ (Codec.decIsKey d k = true ∧ Codec.decIsKey d (k + 1) = true) :=
+  Codec.decIsKey_adjacent_excl_all d k hk hk1
+
+/-- a text with a zero mantissa denotes no positive key -/
+theorem C04_decimal_zero_mant (d : Codec.Dec) (n : Nat) (hn : 0 < n) (hd : d.mant = 0) :
+    Codec.decIsKey d (n : Int) = false :=
+  Codec.decIsKey_zero_mant_pos d n hn hd
 
 end Sod.Props
